@@ -462,6 +462,10 @@ func (c *Client) HalfClose() {
 
 func (c *Client) netConn() net.Conn { return c.nc }
 
+// LocalAddr is the client's side of the TCP connection (the server logs it as
+// the remote address).
+func (c *Client) LocalAddr() string { return c.nc.LocalAddr().String() }
+
 // WriteBytes writes raw bytes to the TCP connection (for partial or malformed
 // WebSocket frames).
 func (c *Client) WriteBytes(b []byte) error {
